@@ -290,7 +290,7 @@ pub fn generate_pipein(r: &mut Rng) -> Program {
     let mut c0 = vec![Op::PipeIn(0, 0)];
     let mut prod = vec![];
     let bursts = 1 + r.below(3);
-    for _ in 0..bursts { prod.push(Op::Produce(0, r.below(4))); if r.chance(1, 3) { prod.push(Op::Desync(1, vec![Prim::Touch])); } }
+    for _ in 0..bursts { let n = if r.chance(1, 6) { 33 + r.below(40) } else { r.below(4) }; prod.push(Op::Produce(0, n)); if r.chance(1, 3) { prod.push(Op::Desync(1, vec![Prim::Touch])); } }
     let mut conc = vec![];
     for _ in 0..r.below(4) { conc.push(match r.below(3) { 0 => Op::Sync(0, vec![Prim::Touch]), 1 => Op::TrySync(0, vec![Prim::Touch]), _ => Op::Desync(0, vec![Prim::Touch]) }); }
     if drop_mid { c0.push(Op::Produce(0, 1)); c0.push(Op::DropObj(0)); }
@@ -305,11 +305,13 @@ pub fn generate_pipein(r: &mut Rng) -> Program {
 pub fn generate_pipe(r: &mut Rng, drop_stream: bool) -> Program {
     let pool = 1 + r.below(3);
     let depth = if r.chance(1, 3) { 0 } else { 1 + r.below(5) };
-    let mut c0 = vec![Op::Pipe(0, 0, depth)];
     let mut prod = vec![];
     let total: usize;
+    let depth = if drop_stream && r.chance(1, 2) { 1 + r.below(2) } else { depth };
+    let mut c0 = vec![Op::Pipe(0, 0, depth)];
     if drop_stream {
-        let a = r.below(4); total = a;
+        // half of the drop scenarios throttle the producer first: more items than the buffer takes
+        let a = if depth >= 1 && depth <= 2 { depth + 1 + r.below(3) } else { r.below(4) }; total = a;
         prod.push(Op::Produce(0, a));
         if a > 0 && r.chance(1, 2) { c0.push(Op::Consume(1 + r.below(a))); }
         c0.push(Op::DropStream);
